@@ -401,7 +401,7 @@ def c05(ctx):
             cmds.append(fn % (hx(b"pass"), hx(s)))
     nbound = 0
     for m in cfgev["E"]:
-        for s in gen.grammar_boundaries(m, rng) + gen.late_bad_char_settings(m, rng):
+        for s in gen.grammar_boundaries(m, rng) + gen.late_bad_char_settings(m, rng) + gen.salt_length_bad_char(m, rng):
             cmds.append("crypt_rn 0 %s %s 32768" % (hx(b"pass"), hx(s)))
             cmds.append(rng.choice(("crypt_r 0 %s %s", "crypt - %s %s", "crypt_ra 1 %s %s")) % (hx(b"pass"), hx(s)))
             nbound += 1
@@ -1541,7 +1541,9 @@ def c03(ctx):
         # degenerate spellings of the cost field (zero / empty / implicit default): the edge of every rounds loop
         degenerate = {"sha1crypt": ["$sha1$0$" + gen.salt(rng, 8), "$sha1$$" + gen.salt(rng, 8)],
                       "sha256crypt": ["$5$" + gen.salt(rng, 16)], "sha512crypt": ["$6$" + gen.salt(rng, 16)],
-                      "md5crypt": ["$1$"], "bsdicrypt": ["_/..." + gen.salt(rng, 4)]}.get(m, [])
+                      "md5crypt": ["$1$"], "bsdicrypt": ["_/..." + gen.salt(rng, 4)],
+                      # (text after a traditional hash, e.g. an SVR4 ",<aging>" field: still longer than 13, still bigcrypt)
+                      "bigcrypt": [gen.salt(rng, 2) + "$" + "." * 13, gen.salt(rng, 13) + "," + gen.salt(rng, 4)]}.get(m, [])
         for s0 in [s_main] + degenerate:
             lens = (9, 32, 64, 73, 130, 511) if quick else (1, 7, 8, 9, 16, 31, 32, 33, 55, 56, 63, 64, 65, 72, 73, 127, 128, 129, 200, 256, 257, 511)
             if m in ("scrypt", "yescrypt", "gost_yescrypt") and quick:
@@ -1550,8 +1552,16 @@ def c03(ctx):
                 lens = (9, 73, 257, 300)          # (beyond 255: a key length kept in a byte wraps)
             if s0 is not s_main:
                 lens = (9, 73) if quick else (8, 9, 64, 73, 200)
-            for n in lens:
+            for n in tuple(lens) + ((-24,) if s0 is s_main else ()):
+                special = n < 0
+                n = abs(n)
                 P = bytearray(gen.rand_phrase(rng, n, eightbit=(m not in ("bcrypt_x", "bcrypt_a"))))
+                if special:
+                    # a base phrase with the bytes a C string routine or a line reader treats specially: 0x80 (zero once
+                    # the eighth bit is stripped) at the 8-byte block boundaries, a trailing newline, CR, tab, DEL
+                    if m not in ("bcrypt_x", "bcrypt_a"):
+                        P[8] = P[16] = 0x80
+                    P[3], P[12], P[22], P[23] = 0x09, 0x7f, 0x0d, 0x0a
                 base_i = len(meta)
                 cmds.append("crypt_rn 0 %s %s 32768" % (hx(bytes(P)), hx(s0)))
                 meta.append(-1)
@@ -1626,7 +1636,7 @@ def c03(ctx):
         base_i = len(meta2)
         cmds2.append("crypt_rn 0 %s %s 32768" % (hx(P), hx(H)))
         meta2.append(-1)
-        cand = [P + b"X", P + gen.rand_phrase(rng, 8), P[:-1], P[:-1] + bytes([P[-1] ^ 0x01 or 0x02])]
+        cand = [P + b"X", P + gen.rand_phrase(rng, 8), P[:-1], P[:-1] + bytes([P[-1] ^ 0x01 or 0x02]), P + b"\n", P + b"\r\n", P + b" "]
         if len(P) > 8:
             cand.append(P[:-8])
         for Q in cand:
